@@ -152,3 +152,62 @@ func Harness_C21_storage_save_twice() {
 	v.Assert("C21.storage.twice.all_chunks_of_last_save", got == len(second))
 	v.Reach("C21.storage.twice.end")
 }
+
+// Append after reading: a file with 1..2 saved chunks is opened, read to its end (each chunk comes back
+// intact), then one more chunk is appended through the same storage object (no rewrite from the start),
+// and the file is reopened: it yields the old chunks followed by the new one, byte for byte - the
+// appended chunk is chained to the right predecessor.
+func Harness_C21_storage_append_after_read() {
+	var chunks [][]byte
+	for k, n := 0, 1+v.Choice(2); k < n; k++ {
+		chunks = append(chunks, v.NondetBytes(1+v.Choice(2)))
+	}
+	var file []byte
+	c21WriteChunks(&file, chunks)
+	// optionally a short garbage tail (too short for a chunk header): reported, and overwritten by the append
+	garbage := v.Choice(3)
+	for i := 0; i < garbage; i++ {
+		file = append(file, v.NondetU8())
+	}
+	w := NewChunkedStorage2Slice(&file)
+	got := 0
+	for {
+		b, err := w.ReadNext(c21Magic)
+		if err != nil {
+			v.Assert("C21.append.read_error_only_for_a_garbage_tail", garbage > 0 && got == len(chunks))
+			break
+		}
+		if len(b) == 0 {
+			break
+		}
+		got++
+	}
+	v.Assert("C21.append.all_saved_chunks_read", got == len(chunks))
+	extra := v.NondetBytes(1 + v.Choice(2))
+	chunk := w.StartWriteChunk(c21Magic, 0)
+	chunk = append(chunk, extra...)
+	v.Assert("C21.append.write_ok", w.FinishWriteChunk(chunk) == nil)
+	all := append(append([][]byte(nil), chunks...), extra)
+	r := NewChunkedStorage2Slice(&file)
+	n := 0
+	for {
+		b, err := r.ReadNext(c21Magic)
+		v.Assert("C21.append.reload_clean", err == nil)
+		if err != nil || len(b) == 0 {
+			break
+		}
+		v.Assert("C21.append.no_extra_chunks", n < len(all))
+		if n < len(all) {
+			same := len(b) == len(all[n])
+			if same {
+				for j := range b {
+					same = v.And(same, b[j] == all[n][j])
+				}
+			}
+			v.Assert("C21.append.chunk_identical", same)
+		}
+		n++
+	}
+	v.Assert("C21.append.old_chunks_then_the_appended_one", n == len(all))
+	v.Reach("C21.append.end")
+}
